@@ -37,6 +37,7 @@ def run(ctx, idx):
     ctx.rule("C06.c", "FuzzySelectedUnion: after the ascending layer sort the Truest branch averages TopK(NumberToConsider), the Falsest branch BottomK(NumberToConsider); NumberToConsider is checked against the number of inputs before use.")
     ctx.rule("C06.d", "FuzzyXOr reads exactly the two truest layers of the sorted stack and guards the quotient whose divisor is Top(1) - FUZZY_MIN with a test Top(1) <= FUZZY_MIN selecting the constant FUZZY_MIN.")
     res = {d.cls.name: (d, r) for d, r in R.results(idx).values() if d.module.name.endswith("eems.fuzzy")}
+    ctx.rule("C06.f", "Operators leave their operands alone: no in-place write (data or mask buffer) reaches an input.")
     ctx.rule("C06.e", "Missing cells combine as the definitions require: the result is missing wherever any input is (the returned mask covers every input's mask).")
     for name in OPERATORS:
         if name not in res:
@@ -50,6 +51,7 @@ def run(ctx, idx):
                        "a cell missing in %s only comes out present: the operator then combines fewer inputs than its definition says (e.g. the k truest of the remaining layers)" % R.tok_text(miss))
         R.symmetric_roles(ctx, "C06.b", d, r)
         dtype_rule(ctx, "C06.b", d, r)
+        R.leaves_inputs_alone(ctx, "C06.f", d, r, "the operator's own result is right, but the input it wrote through now carries the other inputs' missing cells (or values), so every operator evaluated on it afterwards no longer computes its definition, and which input is damaged depends on the order they are listed in")
     # C06.c
     d, r = res["FuzzySelectedUnion"]
     fi = d.execute
@@ -76,7 +78,7 @@ def run(ctx, idx):
         node, sel, srt, fk = rec[:4]
         conds = rec[4] if len(rec) > 4 else ()
         br = branch_from_conditions(conds) or branch_of(fi, node)
-        if sel and sel[0] in ("TopK", "BottomK", "?", "UnsortedSlice"):
+        if sel and sel[0] in ("TopK", "BottomK", "BottomKOrNone", "?", "UnsortedSlice"):
             # a slice taken under no Truest/Falsest condition serves both cases
             for b_ in ([br] if br is not None else ["Truest", "Falsest"]):
                 if br is not None or b_ not in seen:
@@ -96,6 +98,8 @@ def run(ctx, idx):
             raise AnalysisError("C06.c: slice form in the %s branch is outside the recognised forms [-k:] / [:k]: %s" % (br, K.src(node)))
         if sel[0] == "UnsortedSlice":
             problems.append("the %s case slices a stack that is not sorted along the layer axis" % br)
+        elif sel[0] == "BottomKOrNone":
+            problems.append("the %s branch takes `%s`, all layers but the last n - k: for k = n the upper bound is -0 = 0 and the slice is empty, so considering every input yields an all-missing result instead of the plain mean" % (br, K.src(node)))
         elif sel[0] != want:
             problems.append("the %s branch selects %s(%s): that is the %s end of the ascending sort" % (br, sel[0], sel[1], "falsest" if sel[0].startswith("Bottom") else "truest" if sel[0].startswith("Top") else "unsorted"))
         elif sel[1] != k:
